@@ -110,20 +110,22 @@ def r05_2(ctx):
     except (Undecided, Raised) as ex:
         out.undecided(fn.qname, str(ex), where=fn.where())
     fp = ctx.fn("curve.PlanarCurve.invert")
-    inner = Obj("planar", ctrlpoints=("p0", "p1", "p2", "p3"))
-    C = Obj("C", ctrlpoints=("p0", "p1", "p2", "p3"))
-    # name-mangled private holder: give the stand-in both spellings
-    C.__dict__["__planar"] = inner
-    C.__dict__["_PlanarCurve__planar"] = inner
-    try:
-        got = Runner(ctx, set(), None).call_fn(fp, [C])
-        pts = tuple(inner.__dict__["ctrlpoints"])
-        if pts != ("p3", "p2", "p1", "p0"):
-            out.bad(fp.qname, "control points are not reversed", where=fp.where(), detail=str(pts))
-        else:
-            out.ok(fp.qname, "control points reversed", where=fp.where())
-    except (Undecided, Raised) as ex:
-        out.undecided(fp.qname, str(ex), where=fp.where())
+    for n in (2, 3, 4, 5, 6):                      # straight, quadratic, cubic, quartic, quintic
+        names = tuple(f"p{i}" for i in range(n))
+        inner = Obj("planar", ctrlpoints=names, degree=n - 1, npts=n)
+        C = Obj("C", ctrlpoints=names, degree=n - 1, npts=n)
+        # name-mangled private holder: give the stand-in both spellings
+        C.__dict__["__planar"] = inner
+        C.__dict__["_PlanarCurve__planar"] = inner
+        try:
+            got = Runner(ctx, set(), None).call_fn(fp, [C])
+            pts = tuple(inner.__dict__["ctrlpoints"])
+            if pts != tuple(reversed(names)):
+                out.bad(fp.qname, f"control points are not reversed (degree {n - 1})", where=fp.where(), detail=str(pts))
+            else:
+                out.ok(fp.qname, f"degree {n - 1}: control points reversed", where=fp.where())
+        except (Undecided, Raised, IndexError, TypeError) as ex:
+            out.undecided(fp.qname, f"degree {n - 1}: {ex}", where=fp.where())
     # coverage of the shape-level complements
     for q, coll in (("shape.DefinedShape.__invert__", "jordans"), ("shape.ConnectedShape.__invert__", "subshapes")):
         f2 = ctx.fn(q)
